@@ -113,6 +113,9 @@ class ConcFamily(Family):
             [["add:" + a, "add:" + b, "ready:" + a], ["ready:" + b], ["get"]],
             [["ready:" + a], ["add:" + a], ["get", "get"]],
             [["add:" + a, "ready:" + a, "add:" + a], ["get"], ["ready:" + a]],
+            # IsReady / WaitForReady's view: two workers mark the shared component ready while another is pending
+            [["add:" + a, "add:" + b, "ready:" + a], ["ready:" + a], ["isready", "get"]],
+            [["add:" + a, "ready:" + a], ["add:" + a], ["isready", "isready"]],
         ]
         for th in base:
             cs.append({"threads": th, "max": 3000 if tier == "quick" else 30000})
@@ -120,7 +123,7 @@ class ConcFamily(Family):
             th = []
             for _ in range(2 + rng.below(2)):
                 th.append([rng.choice(["add:" + a, "add:" + b, "ready:" + a, "ready:" + b]) for _ in range(1 + rng.below(2))])
-            th.append(["get"] * (1 + rng.below(2)))
+            th.append([rng.choice(["get", "get", "isready"]) for _ in range(1 + rng.below(2))])
             cs.append({"threads": th, "max": 1500 if tier == "quick" else 5000})
         return cs
 
